@@ -105,7 +105,7 @@ def drop_scratch(root):
 
 # ----------------------------------------------------------------------------- Kani
 
-CHECK_RE = re.compile(r"^Check (\d+): (\S+)\n\t - Status: (\w+)\n\t - Description: \"(.*)\"\n\t - Location: (.*)$", re.M)
+CHECK_RE = re.compile(r"^Check (\d+): (.+)\n\t - Status: (\w+)\n\t - Description: \"((?:.|\n)*?)\"\n\t - Location: (.*)$", re.M)
 
 
 def parse_terse(out):
